@@ -87,6 +87,10 @@ LOCAL_KNOWN = {
         'text-decoration-thickness: auto | from-font validates to True (walrus precedence), length() then fails',
     'crash:AttributeError:__init__.py:preprocess_declarations':
         'a malformed :nth-child(2n+) selector raises AttributeError in tinycss2.nth, only SelectorError is caught',
+    'crash:IndexError:properties.py:grid_template':
+        '`grid-template: 1px /` or `grid: / 1px`: grid_template([]) indexes tokens[0]',
+    'crash:AttributeError:line_break.py:deactivate':
+        '`font-language-override: ""` is accepted, Layout then has no language attribute',
     'crash:RuntimeError:__init__.py:preprocess_stylesheet':
         'a malformed :nth-child(+) selector raises RuntimeError (StopIteration in a generator) in tinycss2.nth',
 }
@@ -810,6 +814,32 @@ def plain(v):
     return True
 
 
+def split_top(v):
+    """split a value on the spaces that are outside ( ) [ ] and strings"""
+    parts, depth, cur, quote = [], 0, '', None
+    for ch in v:
+        if quote:
+            cur += ch
+            if ch == quote:
+                quote = None
+            continue
+        if ch in '"\'':
+            quote = ch
+        elif ch in '([':
+            depth += 1
+        elif ch in ')]':
+            depth -= 1
+        if ch == ' ' and depth == 0:
+            if cur:
+                parts.append(cur)
+            cur = ''
+        else:
+            cur += ch
+    if cur:
+        parts.append(cur)
+    return parts
+
+
 class Pools:
     def __init__(self, gr):
         self.gr = gr
@@ -1007,7 +1037,19 @@ def spell(px, unit):
 
 
 def gen_pair(rng, P, gr, bad_pool):
-    kind = rng.choice(['sh', 'sh', 'sh', 'perm', 'units', 'units', 'var', 'var', 'bad-decl', 'bad-decl', 'bad-rule'])
+    kind = rng.choice(['sh', 'sh', 'sh', 'perm', 'units', 'units', 'var', 'var', 'bad-decl', 'bad-decl', 'bad-rule',
+                       'compute', 'compute'])
+    if kind == 'compute':
+        # every accepted value of every property reaches its computed value (the fingerprint reads them all);
+        # the property name in another case, between two declarations that yield nothing
+        prop = rng.choice(gr.reg['properties'] + gr.reg['expanders'])
+        pool = [v for v in (gr.pools.get(prop) or []) if 'var(' not in v.lower() and v.strip()] or ['initial']
+        v = rng.choice(pool)
+        ctx = rng.choice(['', 'display:flex;', 'display:grid;', 'columns:2;', 'position:relative;'])
+        da = '%s:%s' % (prop, v)
+        db = 'foo:bar;%s:%s;%s:' % (prop.upper() if rng.random() < 0.5 else prop.capitalize(), v, prop)
+        a, b = place(rng, da, db, ctx, 'border-style:solid;', where=rng.choice(['rule', 'attr']))
+        return dict(kind='compute', sig='meta:compute:%s' % prop, a=a, b=b, note='%s == %s' % (da, db))
     if kind == 'sh':
         fam, name, text, longs, ctx = sh_case(rng, P)
         cont, tctx = CONTEXTS[ctx]
@@ -1015,7 +1057,7 @@ def gen_pair(rng, P, gr, bad_pool):
         a, b = place(rng, text, decls(longs), cont, pre)
         return dict(kind='sh', sig='meta:shorthand:%s' % name, a=a, b=b, note='%s == %s' % (text, decls(longs)))
     if kind == 'perm':
-        for _ in range(20):
+        while True:
             fam, name, text, longs, ctx = sh_case(rng, P)
             if fam in ('side', 'border', 'list-style', 'text-decoration', 'flex-flow', 'columns') and ' ' in text:
                 break
@@ -1051,19 +1093,24 @@ def gen_pair(rng, P, gr, bad_pool):
             pa = 'size:%s %s;margin:%s' % (spell(pxs[0] + 201, u1), spell(300, u1), spell(pxs[0] / 4, u1))
             pb = 'size:%s %s;margin:%s' % (spell(pxs[0] + 201, u2), spell(300, u2), spell(pxs[0] / 4, u2))
             return dict(kind='units', sig='meta:units:@page', a=doc('', '', '', page=pa), b=doc('', '', '', page=pb),
-                        note='%s == %s' % (pa, pb))
+                        note='%s == %s' % (pa, pb), tol=0.05)
         da = '%s:%s' % (prop, ' '.join(spell(x, u1) for x in pxs))
         db = '%s:%s' % (prop, ' '.join(spell(x, u2) for x in pxs))
         cont = 'display:flex;' if prop == 'flex-basis' else ''
         a, b = place(rng, da, db, cont, ctx)
-        return dict(kind='units', sig='meta:units:%s' % prop, a=a, b=b, note='%s == %s' % (da, db))
+        # the float product value * 96/2.54 is one ulp off; Pango then truncates spacings and font sizes to its
+        # units and hints glyph positions, which turns the ulp into up to half a pixel per line (reported as a
+        # numerical remark): text metrics get a pixel of tolerance, everything else a twentieth
+        tol = 0.75 if prop in ('font-size', 'word-spacing', 'letter-spacing', 'tab-size', 'line-height') else 0.05
+        return dict(kind='units', sig='meta:units:%s' % prop, a=a, b=b, note='%s == %s' % (da, db), tol=tol)
     if kind == 'var':
         names = [n for n in gr.reg['properties'] if P.get(n) != ['0']]
         prop = rng.choice(names + ['margin', 'padding', 'border-top', 'border-radius', 'flex', 'columns', 'font',
                                    'text-decoration', 'list-style', 'background', 'outline', 'border-color'])
-        pool = [v for v in (gr.pools.get(prop) or []) if plain(v) and v.strip()] or ['0']
+        # a relative url() in a longhand loses the base URL at computed-value time (reported): no url() here
+        pool = [v for v in (gr.pools.get(prop) or []) if plain(v) and v.strip() and 'url(' not in v.lower()] or ['0']
         v = rng.choice(pool)
-        form = rng.choice(['whole', 'whole', 'fallback', 'nested', 'inherited', 'part', 'two-step', 'undefined-no-fallback'])
+        form = rng.choice(['whole', 'whole', 'fallback', 'nested', 'inherited', 'part', 'two-step', 'defined-with-fallback'])
         ctx = 'border-style:solid;position:relative;'
         cont = ''
         if form == 'fallback' and ',' in v:
@@ -1079,17 +1126,14 @@ def gen_pair(rng, P, gr, bad_pool):
             cont = '--x:%s;' % v
         elif form == 'two-step':
             da = '--y:var(--z, %s);%s:var(--y)' % (v, prop) if ',' not in v else '--x:%s;%s:var(--x)' % (v, prop)
-        elif form == 'undefined-no-fallback':
-            # invalid at computed-value time: as if the property were `unset`
-            da = '%s:var(--undefined)' % prop
-            inh = prop in INHERITED_GUESS
-            db = None
+        elif form == 'defined-with-fallback':
+            # the fallback is only for an undefined property
+            other = rng.choice(pool)
+            da = '--x:%s;%s:var(--x, %s)' % (v, prop, other if ',' not in other else '0')
         else:
-            parts = v.split(' ')
+            parts = split_top(v)
             i = rng.randrange(len(parts))
             da = '--x:%s;%s:%s' % (parts[i], prop, ' '.join(parts[:i] + ['var(--x)'] + parts[i + 1:]))
-        if form == 'undefined-no-fallback':
-            return None
         db = '%s:%s' % (prop, v)
         a, b = place(rng, da, db, cont, ctx, where=rng.choice(['rule', 'rule', 'attr']))
         return dict(kind='var', sig='meta:var:%s' % form, a=a, b=b, note='%s == %s' % (da, db))
@@ -1127,8 +1171,6 @@ def gen_pair(rng, P, gr, bad_pool):
     return dict(kind='bad-rule', sig='meta:bad-rule', a=doc('', '', r1 + r2), b=doc('', '', r1 + bad + r2),
                 note='inserted `%s` between `%s` and `%s`' % (bad, r1, r2), r1=r1, r2=r2, bad=bad)
 
-
-INHERITED_GUESS = set()
 
 BAD_RULES = ['@foo bar;', '@foo {a:b}', 'div{color:}', 'div{:red}', 'p[{color:red}', '@import;', '@import url();',
              '@font-face{src:}', '@font-face{}', '@page :bogus{margin:1px}', '@page foo bar{margin:1px}',
@@ -1243,7 +1285,7 @@ def stream_render(run, cases, outs):
                          'properties and @page size/margin); var: var(--x) / fallback / nested / inherited / partial vs the '
                          'substituted text; bad-decl: a declaration that yields nothing inserted anywhere in a rule, a style '
                          'attribute, @page or a parent rule vs absent; bad-rule: one of 70 malformed rules/at-rules (or a stray '
-                         'declaration) between two good rules vs absent. Placement: author rule, style attribute, !important')
+                         'declaration) between two good rules vs absent; compute: any accepted value of any property, the name in another case between two void declarations (all computed values are read). Placement: author rule, style attribute, !important')
 
 
 # ================================================================================ check
@@ -1293,6 +1335,45 @@ def check(run):
 
 
 def replay(data):
+    """re-run the one case of a violation file through the same judge; 1 = it still fails"""
     d = data.get('data', {})
-    print('nothing to replay for', d.get('stream'))
-    return 0
+    stream = d.get('stream')
+    run = common.Run('C07', 'quick', 0)
+    run.known = []
+    LOCAL_KNOWN.clear()
+    (st, reg), = common.run_impl('impl_c07', 'registry', [None])
+    if st != 'ok':
+        print('replay: registry failed', reg)
+        return 1
+
+    class G:
+        pass
+    gr = G()
+    gr.reg = reg
+    if stream == 'pp':
+        cases = [{'fn': 'pp_block', 'css': d['css']}]
+        stream_pp(run, gr, cases, run_multi(cases))
+    elif stream == 'dispatch':
+        cases = [{'fn': 'dispatch_case', 'name': d['name'], 'value': d['value']}]
+        stream_dispatch(run, gr, cases, run_multi(cases))
+    elif stream == 'var':
+        c = d.get('case') or {'env': d['env'], 'value': d['value']}
+        cases = [{'fn': 'var_case', 'env': c['env'], 'value': c['value']}]
+        stream_var(run, cases, run_multi(cases))
+    elif stream == 'units':
+        cases = [dict(d['case'], fn='length_case')]
+        stream_units(run, reg, cases, run_multi(cases))
+    elif stream == 'render':
+        cases = [dict(d['case'], fn='render_pair')]
+        stream_render(run, cases, run_multi(cases, limit=240))
+    else:
+        print('nothing to replay for', stream)
+        return 0
+    bad = [(n, det[:500]) for n, ok, det in run.obligations if not ok]
+    for v in run.violations:
+        print('replay: still fails:', v['what'][:500])
+    for n, det in bad:
+        print('replay: obligation broken:', n, det)
+    if not run.violations and not bad:
+        print('replay: the case passes now')
+    return 1 if (run.violations or bad) else 0
